@@ -58,6 +58,14 @@ type Lists struct {
 }
 
 // a named map type: written as a typed map 'M' type ...
+// maps with dynamic keys (the nil key included) and dynamic values, followed by a field that
+// shows whether the reader stopped where the map ends
+type AnyMaps struct {
+	M     map[interface{}]interface{}
+	After int32
+	L     []interface{}
+}
+
 type StrMap map[string]string
 type NamedMaps struct {
 	A StrMap
@@ -182,7 +190,7 @@ var zooTypes = []reflect.Type{
 	reflect.TypeOf([]int32{}), reflect.TypeOf([]string{}), reflect.TypeOf([]*Inner{}), reflect.TypeOf([]Leaf{}),
 	reflect.TypeOf([]interface{}{}), reflect.TypeOf([]float64{}), reflect.TypeOf([]int64{}), reflect.TypeOf([]time.Time{}),
 	reflect.TypeOf(map[string]string{}), reflect.TypeOf(map[string]int32{}), reflect.TypeOf(map[int32]string{}),
-	reflect.TypeOf(map[string]*Inner{}),
+	reflect.TypeOf(map[string]*Inner{}), reflect.TypeOf(AnyMaps{}), reflect.TypeOf(map[interface{}]interface{}{}),
 }
 
 var timeType = reflect.TypeOf(time.Time{})
@@ -342,7 +350,24 @@ func (g *gen) value(t reflect.Type, depth int) reflect.Value {
 		}
 		m := reflect.MakeMap(t)
 		for i := 0; i < n; i++ {
-			m.SetMapIndex(g.value(t.Key(), depth+1), g.value(t.Elem(), depth+1))
+			k := g.value(t.Key(), depth+1)
+			if t.Key().Kind() == reflect.Interface {
+				// a hashable dynamic key: the nil key, numbers, strings, booleans
+				k = reflect.New(t.Key()).Elem()
+				switch g.r.intn(6) {
+				case 0:
+					// nil
+				case 1:
+					k.Set(reflect.ValueOf(int32(g.r.intn(40))))
+				case 2:
+					k.Set(reflect.ValueOf(g.scalarInt64()))
+				case 3:
+					k.Set(reflect.ValueOf(g.r.bool()))
+				default:
+					k.Set(reflect.ValueOf(g.str()))
+				}
+			}
+			m.SetMapIndex(k, g.value(t.Elem(), depth+1))
 		}
 		v.Set(m)
 	case reflect.Interface:
